@@ -3,5 +3,6 @@ CONSTANTS
   Budget = 7
   MaxW = 3
   Emit = TRUE
+  Start = "Mutation"
 INVARIANTS TypeOK Disjoint Compositional Monotone Roots Export
 CHECK_DEADLOCK FALSE
